@@ -306,6 +306,22 @@ func TestPropExtraKeysDoNotChangeKind(t *testing.T) {
 			extras++
 			recExtra.Class("extra-key-named-steps")
 		}
+		if rapid.IntRange(0, 5).Draw(t, "mergelookalike") == 0 {
+			// an extra key that is the STRING "<<" (quoted; every JSON key is): an ordinary key, whose
+			// value - here a mapping, or a list of mappings, holding keys and a type of other kinds - is data
+			var v yaml.Node
+			if err := yaml.Unmarshal([]byte(rapid.SampledFrom([]string{`{"type": "wait"}`, `{"type": "block"}`, `{"command": "y"}`, `{"wait": null}`, `{"plugins": []}`, `{"trigger": "t", "type": "trigger"}`, `{"group": "g", "steps": []}`, `[{"type": "group"}, {"command": "z"}]`, `"scalar"`, `null`, `{"type": "command", "block": "b"}`}).Draw(t, "mergelookalikeval")), &v); err != nil {
+				t.Fatal(err)
+			}
+			mv := v.Content[0]
+			if mv.Kind == yaml.ScalarNode && mv.Tag == "!!null" {
+				mv = doc.Plain("null")
+			}
+			kv = append(kv, doc.Scalar("!!str", "<<", yaml.DoubleQuotedStyle), mv)
+			used["<<"] = true
+			extras++
+			recExtra.Class("extra-key-that-is-the-string-<<")
+		}
 		for i := 0; i < nExtra; i++ {
 			k := rapid.OneOf(rapid.SampledFrom([]string{"agents", "artifact_paths", "retry", "if", "depends_on", "soft_fail", "parallelism", "Command", "WAIT", "types", "group ", "commandz"}), strs.S()).Draw(t, "extrakey")
 			if used[k] {
